@@ -567,7 +567,7 @@ func raceReportsIn(tmp string) (total int, texel []string) {
 
 func init() {
 	fw.Register(&fw.Prop{
-		ID: "C13", Cases: tierN(40, 1500),
+		ID: "C13", Cases: tierN(200, 3000),
 		Run: func(c *fw.Ctx) {
 			cc := &CLICase{Seed: c.Rng.Uint64()}
 			if c.Tier == "thorough" && c.Idx%5 == 0 && os.Getenv("VERIF_TEXEL_RACE_BIN") != "" {
